@@ -40,3 +40,15 @@ Proof. vm_compute. reflexivity. Qed.
 
 Lemma plantuml_braces w : gen (plantuml_body plantuml_doc) w -> brun false w = Some false.
 Proof. apply braces_sound. exact plantuml_braces_ok. Qed.
+
+Lemma model_doc_blocks_ok : doc_blocks_ok model_doc = true.
+Proof. vm_compute. reflexivity. Qed.
+
+Lemma metamodel_doc_blocks_ok : doc_blocks_ok metamodel_doc = true.
+Proof. vm_compute. reflexivity. Qed.
+
+Lemma model_doc_blocks w : gen model_doc w -> grun g_start w = Some g_final.
+Proof. apply doc_blocks_sound. exact model_doc_blocks_ok. Qed.
+
+Lemma metamodel_doc_blocks w : gen metamodel_doc w -> grun g_start w = Some g_final.
+Proof. apply doc_blocks_sound. exact metamodel_doc_blocks_ok. Qed.
